@@ -41,7 +41,7 @@ RULE = ('Hypothesis-generated batches of 5-40 acyclic record/union/class declara
         'enums, aliases, callbacks), anonymous and typed callbacks, non-introspectable callback fields, empty records; '
         'plus one member of unknown size at a random position in ~12% of the compounds (by-value opaque record, local '
         'or included; flexible array member; non-introspectable field of an unresolved by-value type) and, in ~4% of '
-        'the batches, a void or unresolvable by-value member. thorough adds the exhaustive (min, max) enum boundary '
+        'the batches, a void or unresolvable by-value member; ~3% of the batches put an anonymous callback into a union. thorough adds the exhaustive (min, max) enum boundary '
         'grid and all member-order permutations of every 4-subset of ten representative member types (quick runs the '
         'grid and a 1/14 sample of the permutation batches). non-trivial = the batch contains a fully known struct with '
         'padding (some gcc offset != end of the previous member, or tail padding) and a compound nested by value; '
